@@ -6,7 +6,7 @@ E1 = {
                                  "BayesianNetwork.get_markov_blanket", "DAG.moralize", "DAG.get_ancestral_graph"]),
     "C10": (["contracts.c10"], ["StructureScore.score"]),
     "C11": (["contracts.c11"], ["HillClimbSearch._legal_operations"]),
-    "C13": (["contracts.c15"], ["DAG.do"]),
+    "C13": (["contracts.c13"], ["DAG.do", "CausalInference.is_valid_backdoor_adjustment_set"]),
     "C15": (["contracts.c15"], ["BayesianNetwork.add_edge"]),
     "C18": (["contracts.c18"], ["Independencies.closure.<locals>.sg1", "Independencies.closure.<locals>.sg2",
                                  "Independencies.closure.<locals>.sg3", "IndependenceAssertion.__eq__",
